@@ -143,3 +143,423 @@ def reparse_violation(rec):
 def run_ext(cases, shards=None):
     """cases: list of (docs, ops, view) -> implementation lines with extended dumps"""
     return D.run_impl([D.mkcase(d, o, v + '+x') for d, o, v in cases], shards)
+
+# ------------------------------------------------------------------ histories
+RICH3 = '<!DOCTYPE r [<!ENTITY e "v">]><r k="v" p:k="w" xmlns:p="u"><a x="1" p:x="2"><b>t<i/></b>s</a><!--m--><c x="3"/>w<![CDATA[d]]><?pi z?>&e;&#65;</r>'
+
+def attr_matrix_cases():
+    """single attribute calls from a state with same-named attributes on two elements, prefixed attributes,
+    namespace declarations, a detached attribute and a detached element with an attribute"""
+    docs = [RICH3, D.RICH2]
+    pre = [('CA', 0, 'x'), ('CA', 0, 'p:x'), ('CA', 0, 'n'), ('CE', 0, 'de'), ('SA', 0, 'x', 'q')]
+    line = run_ext([(docs, pre, 'r')])[0]
+    recs = [Rec2(r) for r in line.split(' | ')]
+    de = int(recs[4].result[3:])
+    pre[4] = ('SA', de, 'x', 'q')
+    line = run_ext([(docs, pre, 'r')])[0]
+    rec = [Rec2(r) for r in line.split(' | ')][-1]
+    N = rec.nodes
+    els = [h for h in sorted(N) if N[h].kind == 'el']
+    ats = [h for h in sorted(N) if N[h].kind == 'at']
+    cases = []
+    for e in els:
+        for a in ats:
+            cases += [('SAN', e, a), ('RAN', e, a), ('NS', e, a)]
+        for nm in ('x', 'k', 'p:x', 'p:k', 'xmlns:p', 'xmlns', 'p', 'q:x', 'zz', '1bad', 'a:b:c', ''):
+            cases += [('RA', e, nm), ('NR', e, nm)]
+            for v in ('v', '', 'a&amp;b', '&e;', '&nope;', 'a<b', '\'"', '&#65;', '&#0;'):
+                cases.append(('SA', e, nm, v))
+    for a in ats:
+        for v in ('nv', '', 'a&lt;b', '&e;', '&nope;', 'a<b', '"', "'", '\'"', '&#x41;z'):
+            cases.append(('SV', a, v))
+    return docs, pre, cases
+
+# strings for C15: rich in the markup-significant characters
+FRAG = [']', ']]', '>', ']]>', '-', '--', '->', '?', '?>', '<', '&', "'", '"', 'a', 'x]', ']x', '-x', 'x-', ' ', 'ab', '', '&amp;', '&#65;',
+        'a]]', '>b', '<!--', '-->', '<![CDATA[', 'é', '\u0001', '￾', '\n']
+NAMES15 = ['e', 'f', 'n:m', 'xmlns:q', 'xmlns', 'a', 'b-c', 'x.y', '_u', 'é', '1a', '', 'a b', 'a<', 'a:b:c', ':a', 'xml', 'XmL', 'xml-x']
+
+def gen_op15(ch, rng, run):
+    """one op of a C15 history: creation, insertion and data-editing calls with hostile strings"""
+    N = ch.rec.nodes
+    def frag(): return rng.choice(FRAG) if rng.random() < 0.8 else rng.choice(FRAG) + rng.choice(FRAG)
+    def name(): return rng.choice(NAMES15)
+    def off(): return rng.choice([0, 0, 1, 1, 2, 2, 3, 4, 7, None])
+    doc = ch.any(('doc',))
+    x = rng.random()
+    cd = [h for h in ch.hs if N[h].kind in ('tx', 'cm', 'cd')]
+    if x < 0.40 and cd:
+        r = rng.choice(cd)
+        k = rng.choice(['SD', 'AD', 'AD', 'ID', 'ID', 'DD', 'DD', 'RD', 'RD', 'SV'])
+        if k in ('SD', 'AD', 'SV'): return (k, r, frag())
+        if k == 'ID': return (k, r, off(), frag())
+        if k == 'DD': return (k, r, off(), off())
+        return (k, r, off(), off(), frag())
+    if x < 0.46:
+        tx = [h for h in ch.hs if N[h].kind in ('tx', 'cd')]
+        if tx: return ('ST', rng.choice(tx), off())
+    if x < 0.58:
+        k = rng.choice(['CT', 'CC', 'CD', 'CP', 'CE', 'CA', 'CR'])
+        if k in ('CT', 'CC', 'CD'): return (k, doc, frag())
+        if k == 'CP': return (k, doc, name(), frag())
+        if k == 'CR': return (k, doc, rng.choice(['amp', 'lt', 'e', 'nope', 'quot']))
+        return (k, doc, name())
+    if x < 0.70:
+        els = [h for h in ch.hs if N[h].kind == 'el']
+        ats = [h for h in ch.hs if N[h].kind == 'at']
+        k = rng.choice(['SA', 'SA', 'SV', 'SAN', 'RA'])
+        if k == 'SA' and els: return (k, rng.choice(els), name(), frag())
+        if k == 'SV' and ats: return (k, rng.choice(ats), frag())
+        if k == 'SAN' and els and ats: return (k, rng.choice(els), rng.choice(ats))
+        if els: return ('RA', rng.choice(els), name())
+    if x < 0.75:
+        pis = [h for h in ch.hs if N[h].kind == 'pi']
+        if pis: return ('PD', rng.choice(pis), frag())
+    # tree edits: mostly attach detached nodes (so that what was created gets printed)
+    k = rng.choice(['AC', 'AC', 'AC', 'IB', 'IB', 'RC', 'RM'])
+    r = ch.receiver()
+    det = [h for h in ch.hs if N[h].p is None and N[h].kind not in ('doc', 'at', 'fr', 'dt')]
+    a = rng.choice(det) if det and rng.random() < 0.7 else ch.argument(r, run)
+    if k in ('AC', 'RM'):
+        if k == 'RM' and N[r].c: a = rng.choice([y for y in N[r].c if y != '?'] or [a])
+        return (k, r, a)
+    ref = rng.choice([y for y in N[r].c if y != '?']) if N[r].c and rng.random() < 0.8 else ch.argument(r, run)
+    return (k, r, a, ref)
+
+DOCS15 = ['<r>t<!--c--><![CDATA[d]]><?p q?><a x="1">u</a></r>',
+          '<!DOCTYPE r [<!ENTITY e "v">]><r k="v">a]]x&gt;<!--a-x-b--><![CDATA[a]]x>b]]>&e;<b/></r>',
+          '<?xml version="1.0"?><!--h--><r xmlns:n="u"><n:a n:x="1">s</n:a>w<?pi z?></r><!--f-->',
+          '<r/>']
+
+def histories15(rng, count, maxlen, chunk=6):
+    """C15 histories grown against the implementation (handles and kinds come from its last dump)"""
+    st = D.Stats()
+    hist = [{'docs': [rng.choice(DOCS15)], 'ops': [], 'len': rng.randint(1, maxlen)} for _ in range(count)]
+    for rnd in range((maxlen + chunk - 1) // chunk + 1):
+        live = [h for h in hist if len(h['ops']) < h['len']]
+        if not live: break
+        lines = D.run_impl([D.mkcase(h['docs'], h['ops'], 'r!%d' % len(h['ops'])) for h in live])
+        for h, line in zip(live, lines):
+            recs = D.parse_line(line)
+            if not recs or recs[-1].bad or recs[-1].skipped:
+                h['len'] = len(h['ops']); continue
+            ch = D.Chooser(recs[-1], rng, {x: 0 for x in recs[-1].nodes})
+            for _ in range(min(chunk, h['len'] - len(h['ops']))):
+                h['ops'].append(gen_op15(ch, rng, st))
+    return [(h['docs'], h['ops'], 'r') for h in hist], st.hist
+
+# ------------------------------------------------------------------ analysis
+def kinds_at(rec, op):
+    """kinds of the handle arguments of an op in the state `rec`"""
+    return tuple(rec.nodes[x].kind if isinstance(x, int) and x in rec.nodes else None for x in op[1:4])
+
+def analyse(cases, lines, tag, summary, c15=True):
+    """every call of every history: spec step, atomicity, panic; re-parse after successful calls"""
+    H = summary['hist']
+    def cnt(k, n=1): H[k] = H.get(k, 0) + n
+    steps = []        # (case index, op index, prev, rec)
+    uniq = {}         # (prev dump, op) -> index into triples
+    triples = []
+    for ci, ((docs, ops, view), line) in enumerate(zip(cases, lines)):
+        summary['cases'] += 1
+        cnt('cases:' + tag)
+        if ' # ' not in line:
+            summary['crashes'].append({'docs': docs, 'ops': [list(o) for o in ops], 'line': line[:200]})
+            continue
+        txt = line.split(' | ')
+        ew = ent_words(line)
+        prev = None
+        for i, t in enumerate(txt):
+            rec = Rec2(t)
+            if i > 0 and prev is not None and not prev.skipped and not rec.skipped and not prev.bad and not rec.bad:
+                op = ops[i - 1]
+                if op[0] != 'Q':
+                    key = (prev.ext_dump, D.mkop(op))
+                    if key not in uniq:
+                        uniq[key] = len(triples)
+                        triples.append((prev.ext_dump, D.mkop(op), ew))
+                    steps.append((ci, i, prev, rec, uniq[key]))
+            elif i > 0 and rec.bad:
+                summary['c13'].append({'docs': docs, 'ops': [list(o) for o in ops[:i]], 'clause': 'dump', 'detail': 'no dump after the call: ' + str(rec.bad),
+                                       'tag': tag, 'op': list(ops[i - 1]), 'impl': rec.result, 'spec': '?', 'kinds': []})
+            prev = rec
+    out = spec_steps(triples)
+    seen13, seen15 = summary['_seen13'], summary['_seen15']
+    for ci, i, prev, rec, k in steps:
+        docs, ops, view = cases[ci]
+        op = ops[i - 1]
+        sres, sstate = out[k]
+        summary['ops'] += 1
+        res = rec.result
+        cls = res.split(':')[0] + (':' + res.split(':')[1] if res.startswith('err') else '')
+        cnt('op:' + op[0]); cnt('result:' + cls); cnt('spec:' + sres.split(':')[0] + (':' + sres.split(':')[1] if sres.startswith('err') else ''))
+        if cls != 'na':
+            summary['nontrivial'].add(hash((prev.plain_dump, D.mkop(op))))
+        vs = []
+        v = compare_step(prev, rec, sres, sstate)
+        if v: vs.append(v)
+        v = atomicity(prev, rec)
+        if v: vs.append(v)
+        for clause, detail in vs:
+            f = {'docs': docs, 'ops': [list(o) for o in ops[:i]], 'clause': clause, 'detail': detail, 'tag': tag,
+                 'op': list(op), 'impl': res, 'spec': sres, 'kinds': list(kinds_at(prev, op))}
+            fid = classify13(f)
+            key = (clause, op[0], cls, sres.split(':')[0], fid and fid[0], tuple(f['kinds'][:2]) if not fid else None)
+            summary['n13'][str(fid[0] if fid else 'unlisted')] = summary['n13'].get(str(fid[0] if fid else 'unlisted'), 0) + 1
+            if key in seen13: continue
+            seen13.add(key)
+            summary['c13'].append(f)
+        if c15 and (res == 'ok' or res.startswith('ok:')):
+            broken_before = {k for k, v in prev.r.items() if v != 'ok:eq'}
+            for clause, detail in reparse_violation(rec):
+                k = int(detail.split(' ')[1].rstrip(':'))
+                feats = features15(rec, k)
+                if k in broken_before:
+                    # the document was already broken: report this call only if it broke it in a NEW way
+                    feats = feats - features15(prev, k)
+                    if not feats:
+                        cnt('c15:already-broken'); continue
+                f = {'docs': docs, 'ops': [list(o) for o in ops[:i]], 'clause': clause, 'detail': detail, 'tag': tag, 'op': list(op), 'impl': res,
+                     'kinds': list(kinds_at(prev, op)), 'serial': {k: dec(v) for k, v in rec.serial.items()}, 'feats': sorted(feats)}
+                fid = classify15(f)
+                key = (clause, op[0], fid and fid[0])
+                summary['n15'][str(fid[0] if fid else 'unlisted')] = summary['n15'].get(str(fid[0] if fid else 'unlisted'), 0) + 1
+                if key in seen15: continue
+                seen15.add(key)
+                summary['c15'].append(f)
+
+# ------------------------------------------------------------------ known findings (narrow: op + argument shape)
+def is_name_start_problem(s):
+    """D04: first character is a NameChar but not a NameStartChar, or the string is empty"""
+    if s == '': return True
+    c = s[0]
+    return c in '-.0123456789·' or '̀' <= c <= 'ͯ' or c in '‿⁀'
+
+def classify13(f):
+    op, impl, spec, kinds = f['op'], f['impl'], f['spec'], f.get('kinds', [])
+    k = op[0]
+    if k == 'RM' and kinds and kinds[0] in ('tx', 'cm', 'cd', 'pi') and impl == 'err:HierarchyRequestErr' and spec == 'err:NotFoundErr':
+        return ('C13-LEAF-RM', 'remove_child on a Text/Comment/CDATASection/ProcessingInstruction answers HIERARCHY_REQUEST_ERR; DOM Level 1 specifies NOT_FOUND_ERR (oldChild is not a child)')
+    if k in ('AC', 'IB', 'RC') and kinds and kinds[0] == 'doc' and kinds[1] in ('el', 'dt') and impl == 'err:HierarchyRequestErr' and spec.startswith('ok'):
+        return ('C13-DOC-MOVE', 'the Document refuses to move or replace its document element / document type (HIERARCHY_REQUEST_ERR): the cardinality test counts the node that the call itself takes out')
+    if k in ('CT', 'CC', 'CD') and impl == 'panic' and spec == 'err:refused':
+        return ('D42', 'argument of create_text_node / create_comment / create_cdata_section is not storable: the factory unwraps the validation result and panics (its signature has no Result)')
+    if k in ('CP', 'CR') and isinstance(op[2], str) and is_name_start_problem(op[2]) and spec == 'err:InvalidCharacterErr' and impl.startswith(('ok', 'err:info')):
+        return ('D04', 'production name/pi_target accepts a string whose first character is a NameChar but not a NameStartChar (or the empty string)')
+    return None
+
+PREDEF = ('amp', 'lt', 'gt', 'apos', 'quot')
+
+def features15(rec, k):
+    """what is known to make the serialisation of document k unparsable (evaluated on the dump)"""
+    N = rec.nodes
+    root = None
+    for h, n in N.items():
+        if n.kind == 'doc' and rec.x.get(h, (None,))[0] == k:
+            root = h
+    feats = set()
+    if root is None:
+        return feats
+    kids = [x for x in N[root].c if x in N]
+    if not any(N[x].kind == 'el' for x in kids):
+        feats.add('noroot')
+    attached, todo = [], [root]
+    while todo:
+        h = todo.pop()
+        if h not in N: continue
+        attached.append(h)
+        todo += [x for x in N[h].c if x != '?'] + list(N[h].a or []) + list(N[h].n or [])
+    has_dt = any(N[x].kind == 'dt' for x in kids)
+    if not has_dt and any(N[h].kind == 'er' and dec(N[h].name) not in PREDEF for h in attached):
+        feats.add('nodt-entityref')
+    kinds = [N[x].kind for x in kids]
+    if 'dt' in kinds and 'el' in kinds and kinds.index('el') < kinds.index('dt'):
+        feats.add('element-before-doctype')
+    def text_of(h):
+        n = N[h]
+        if n.kind == 'tx': return dec(n.data) if n.data not in ('~', '!') else ''
+        if n.kind == 'cr': return dec(n.name)
+        if n.kind == 'er': return '&' + dec(n.name) + ';'
+        return None
+    for h in attached:
+        n = N[h]
+        if n.kind == 'el':
+            run = []
+            for c in list(n.c) + [None]:
+                t = text_of(c) if c in N else None
+                if t is not None and N[c].kind == 'tx':
+                    run.append(t)
+                else:
+                    if len(run) > 1 and ']]>' in ''.join(run) and not any(']]>' in x for x in run):
+                        feats.add('adjacent-text-cdend')
+                    run = []
+            for c in n.c:
+                if c in N and N[c].kind == 'tx' and ']]>' in (text_of(c) or ''):
+                    feats.add('text-with-cdend-in-content')
+        if n.kind == 'at':
+            parts = [text_of(c) or '' for c in n.c if c in N]
+            v = ''.join(parts)
+            if '"' in v and "'" in v:
+                feats.add('attr-both-quotes')
+    return feats
+
+def classify15(f):
+    """known findings of C15 -> (id, text) or None.  `f['feats']`: features of the broken document"""
+    feats = set(f.get('feats', []))
+    if f['clause'] in ('noparse', 'rest'):
+        if 'noroot' in feats:
+            return ('C15-NOROOT', 'the document element was removed (DOM Level 1 allows it): a document without an element has no well-formed serialisation')
+        if 'nodt-entityref' in feats:
+            return ('C15-DOCTYPE-REMOVED', 'the document type was removed while references to the entities it declares remain in the tree')
+        if 'adjacent-text-cdend' in feats:
+            return ('C15-ADJACENT-TEXT', 'two adjacent Text nodes, each storable, print as character data containing "]]>"')
+        if 'text-with-cdend-in-content' in feats:
+            return ('C15-ATTR-TEXT-MOVED', 'a Text node holding "]]>" (legal in an attribute value, where it was created) was moved into element content')
+        if 'attr-both-quotes' in feats:
+            return ('C15-ATTR-QUOTES', 'an attribute value assembled from child nodes contains both quotation marks: no quoting is possible without escaping')
+        if 'element-before-doctype' in feats:
+            return ('C15-ELEMENT-BEFORE-DOCTYPE', 'an element was inserted before the document type declaration')
+    return None
+
+# ------------------------------------------------------------------ the shared campaign of C13 / C15
+def source_hash():
+    h = hashlib.sha256()
+    for f in ('checks/dom13.py', 'checks/domlib.py', 'harness/src/domains/dom.rs', 'ocaml/specdomains/dom/dom.ml', 'coq/theories/Spec/DomL1.v',
+              'coq/theories/Spec/DomCharData.v', 'coq/theories/Spec/XmlChars.v'):
+        try: h.update(open(os.path.join(lib.VERIF, f), 'rb').read())
+        except OSError: pass
+    return h.hexdigest()[:12]
+
+# regression seeds: the reproductions of the repaired defects (must conform now) and one witness per listed finding
+CORPUS = [
+    (['<r>abc</r>'], [('RD', 2, 1, 1, '<'), ('SD', 2, 'a<b'), ('SV', 2, 'x&y')]),                                   # D39
+    (['<r><!--abc--></r>'], [('RD', 2, 1, 1, '--'), ('SD', 2, 'x--y'), ('SD', 2, 'ok-')]),                           # D39
+    (['<r>]]x></r>'], [('DD', 2, 2, 1), ('RD', 2, 2, 1, ''), ('RD', 2, 2, 1, 'y')]),                                 # D46
+    (['<r><!--a-x-b--></r>'], [('DD', 2, 2, 1), ('DD', 2, 2, 9), ('RD', 2, 2, 1, 'y'), ('AD', 2, '-'), ('ID', 2, 1, '-'), ('ID', 2, 0, '-')]),
+    (['<r><![CDATA[a]]x>b]]></r>'], [('DD', 2, 3, 1), ('AD', 2, ']'), ('ST', 2, 3)]),
+    (['<r>a</r>'], [('AD', 2, ']]'), ('AD', 2, '>'), ('ID', 2, 0, '>'), ('ST', 2, 2)]),
+    (['<r><![CDATA[a]]></r>'], [('AD', 2, ']]'), ('AD', 2, '>')]),
+    (['<r a="1"><e a="3"/></r>'], [('NS', 1, 5), ('SAN', 1, 5), ('RAN', 1, 5), ('RAN', 4, 5)]),                      # D40, RAN identity
+    (['<r p:a="1" xmlns:p="u"/>'], [('SA', 1, 'xmlns:a', 'z'), ('SA', 1, 'a', 'y'), ('SA', 1, 'p:a', 'w'), ('RA', 1, 'a'), ('RA', 1, 'p:a')]),  # D43
+    (['<r a="1"/>'], [('SA', 1, 'a', '2'), ('SA', 1, 'a', 'x<y'), ('CA', 0, 'a'), ('RAN', 1, 4), ('SAN', 1, 4)]),     # set_attribute keeps the node
+    (['<r/>'], [('CE', 0, "a b='1'"), ('CE', 0, 'a '), ('CA', 0, 'a '), ('CP', 0, 'a b', 'c'), ('CP', 0, 't', ' x'), ('CP', 0, 't', 'x?>y')]),
+    (['<r/>'], [('CT', 0, 'a<b'), ('CC', 0, '--'), ('CD', 0, ']]>'), ('CT', 0, 'ok'), ('CC', 0, 'a-b'), ('CD', 0, '<&>')]),   # D42
+    (['<r>a</r>'], [('CT', 0, ']]'), ('CT', 0, '>'), ('AC', 1, 3), ('AC', 1, 4)]),                                    # adjacent Text nodes
+    (['<r a="x">t</r>'], [('SV', 2, ']]>'), ('RC', 1, 5, 4)]),                                                        # attribute text into content
+    (['<r a="x">t</r>'], [('AD', 3, '"'), ('AD', 3, "'")]),                                                           # both quotes
+    (['<!DOCTYPE r []><r/>'], [('RM', 0, 2), ('CE', 0, 'n'), ('IB', 0, 3, 1)]),                                       # element before the doctype
+    (['<!DOCTYPE r [<!ENTITY e "v">]><r>&e;</r>'], [('RM', 0, 1)]),
+    (['<r><a/><b/></r>'], [('IB', 1, 2, 2), ('RC', 1, 3, 3), ('AC', 1, 1), ('AC', 2, 1), ('IB', 1, 3, 2), ('RC', 1, 2, 3)]),
+]
+
+def campaign(run):
+    """single-call matrices, the random histories of the C12/C14 campaign (same generator, same seed) and the C15
+    histories, all run once with extended dumps; both properties' oracles; cached for the other check"""
+    path = os.path.join(lib.WORK, 'dom13_campaign_%s_%s_%s_%s.json' % (run.tier, run.seed, lib.repo_tree_hash(), source_hash()))
+    if os.path.exists(path) and time.time() - os.path.getmtime(path) < 6 * 3600 and not os.environ.get('VERIF_DOM_NOCACHE'):
+        s = json.load(open(path)); s['cached'] = True
+        return s
+    rng = random.Random(run.seed)
+    thorough = run.tier == 'thorough'
+    s = {'cases': 0, 'ops': 0, 'c13': [], 'c15': [], 'crashes': [], 'hist': {}, 'nontrivial': set(), 'n13': {}, 'n15': {},
+         '_seen13': set(), '_seen15': set(), 'samples': [], 'times': {}}
+    t0 = time.time()
+    cases = [(d, o, 'r') for d, o in CORPUS]
+    analyse(cases, run_ext(cases, shards=1), 'corpus', s)
+    docs, pre, calls = D.matrix_cases()
+    cases = [(docs, pre + [c], 'r!%d' % len(pre)) for c in calls]
+    analyse(cases, run_ext(cases), 'matrix', s)
+    s['samples'].append({'kind': 'single-call matrix (receiver x argument x reference position, every mutator)', 'documents': docs,
+                         'prefix': [D.show_op(o) for o in pre], 'calls': len(calls)})
+    docs, pre, calls = attr_matrix_cases()
+    cases = [(docs, pre + [c], 'r!%d' % len(pre)) for c in calls]
+    analyse(cases, run_ext(cases), 'attr-matrix', s)
+    s['samples'].append({'kind': 'attribute matrix (element x attribute node, element x name x value)', 'documents': docs,
+                         'prefix': [D.show_op(o) for o in pre], 'calls': len(calls)})
+    s['times']['matrix'] = round(time.time() - t0, 1); t0 = time.time()
+    st = D.Stats()
+    H = D.random_histories(st, rng, 5000 if thorough else 400, 40)
+    for k, v in st.hist.items(): s['hist'][k] = s['hist'].get(k, 0) + v
+    for k in range(0, len(H), 1000):
+        analyse(H[k:k + 1000], run_ext(H[k:k + 1000]), 'random', s)
+    for d, o, v in H[:2]:
+        s['samples'].append({'kind': 'random history', 'documents': d, 'ops': [D.show_op(x) for x in o]})
+    s['times']['random'] = round(time.time() - t0, 1); t0 = time.time()
+    H, hist = histories15(rng, 6000 if thorough else 500, 30)
+    for k, v in hist.items(): s['hist'][k] = s['hist'].get(k, 0) + v
+    for k in range(0, len(H), 1000):
+        analyse(H[k:k + 1000], run_ext(H[k:k + 1000]), 'markup-strings', s)
+    for d, o, v in H[:3]:
+        s['samples'].append({'kind': 'C15 history (markup-significant strings)', 'documents': d, 'ops': [D.show_op(x) for x in o]})
+    for d, o, v in H:
+        key = 'len15:%d' % (10 * (len(o) // 10)); s['hist'][key] = s['hist'].get(key, 0) + 1
+    s['times']['markup-strings'] = round(time.time() - t0, 1)
+    s['nontrivial'] = len(s['nontrivial'])
+    del s['_seen13'], s['_seen15']
+    os.makedirs(lib.WORK, exist_ok=True)
+    with open(path, 'w') as f:
+        json.dump(s, f)
+    s['cached'] = False
+    return s
+
+# ------------------------------------------------------------------ shrinking, replay
+def step_violations(docs, ops, prop):
+    """run a history on the implementation; -> list per op index of [(clause, detail, f)]"""
+    line = run_ext([(docs, ops, 'r')], shards=1)[0]
+    if ' # ' not in line:
+        return None, line
+    s = {'cases': 0, 'ops': 0, 'c13': [], 'c15': [], 'crashes': [], 'hist': {}, 'nontrivial': set(), 'n13': {}, 'n15': {},
+         '_seen13': set(), '_seen15': set()}
+    analyse([(docs, ops, 'r')], [line], 'replay', s)
+    return s['c13' if prop == 'c13' else 'c15'], line
+
+def same_failure(f, g):
+    return f['clause'] == g['clause'] and f['op'][0] == g['op'][0] and f.get('impl', '').split(':')[:2] == g.get('impl', '').split(':')[:2] \
+        and (f.get('spec', '').split(':')[:2] == g.get('spec', '').split(':')[:2])
+
+def shrink(f, prop):
+    docs = f['docs']
+    ops = [tuple(o) for o in f['ops']]
+    def fails(cand):
+        vs, _ = step_violations(docs, cand, prop)
+        return bool(vs) and any(same_failure(f, g) for g in vs)
+    if not fails(ops):
+        return f
+    small = D.ddmin(ops, fails)
+    vs, _ = step_violations(docs, small, prop)
+    g = [x for x in vs if same_failure(f, x)][0]
+    g = dict(g); g['shrunk_from'] = len(ops)
+    return g
+
+def describe(f):
+    ops = [tuple(o) for o in f['ops']]
+    return '%s -- %s; history on %s: %s' % (D.show_op(ops[-1]), f['detail'][:400], f['docs'], ' ; '.join(D.show_op(o) for o in ops))
+
+def replay_file(path, prop):
+    d = json.load(open(path))
+    print(json.dumps({k: v for k, v in d.items() if k not in ('docs', 'ops', 'serial')}, indent=1, ensure_ascii=False))
+    if 'docs' not in d:
+        return 0
+    docs, ops = d['docs'], [tuple(o) for o in d['ops']]
+    line = run_ext([(docs, ops, 'r')], shards=1)
+    print('documents:', docs)
+    if not line or ' # ' not in line[0]:
+        print('implementation: no output'); return 1
+    txt = line[0].split(' | ')
+    ew = ent_words(line[0])
+    recs = [Rec2(t) for t in txt]
+    out = spec_steps([(recs[i - 1].ext_dump, D.mkop(ops[i - 1]), ew) for i in range(1, len(recs))], shards=1)
+    for i in range(1, len(recs)):
+        sres, sstate = out[i - 1]
+        print('%2d %-44s implementation: %-26s DOM Level 1: %s' % (i, D.show_op(ops[i - 1]), recs[i].result, sres))
+        for v in (compare_step(recs[i - 1], recs[i], sres, sstate), atomicity(recs[i - 1], recs[i])):
+            if v: print('      C13 %s: %s' % v)
+        if recs[i].result.startswith('ok'):
+            for v in reparse_violation(recs[i]):
+                print('      C15 %s: %s' % v)
+        print('      serialisation:', {k: dec(v) for k, v in recs[i].serial.items()})
+    ml = D.run_model([D.mkcase(docs, ops, 'r')], D.run_impl([D.mkcase(docs, ops, 'r')], shards=1), shards=1)
+    il = D.run_impl([D.mkcase(docs, ops, 'r')], shards=1)
+    if ml and il:
+        print('model vs implementation: first differing record =', D.first_mismatch(il[0], ml[0]))
+    return 0
